@@ -1,6 +1,6 @@
 (* SchedRun.v — core.run (guarded code): terminates within the supplied fuel in a quiescent state,
    loses nothing, hence fires everything that was due whichever tasks raise. *)
-From Bac Require Import Base Deferred DeferredFacts Sched SchedFacts SchedThms SchedOrder.
+From Bac Require Import Base Deferred DeferredFacts Sched SchedFacts SchedThms SchedPassive SchedOrder.
 From Coq Require Import Permutation Sorted ZifyBool ZifyN ZifyNat.
 Ltac Zify.zify_post_hook ::= Z.to_euclidean_division_equations.
 Open Scope Z_scope.
@@ -15,44 +15,53 @@ Proof.
   apply dcount_sorted_zero; [exact Hso | lia].
 Qed.
 
-Lemma run_loop_progress : forall jit c, 0 <= jit -> forall fuel s s' ev, Inv s ->
+Lemma run_loop_progress : forall jit c, passive_cfg c -> 0 <= jit -> forall fuel s s' ev, Inv s -> passive_dq s ->
   (rmeasure s < fuel)%nat -> run_loop true jit c fuel s = (s', ev) ->
   ~ In (EvErr OutOfFuel) ev /\ now s' = now s /\ Inv s' /\ quiescent s' = true.
 Proof.
-  intros jit c Hj. induction fuel as [|f IH]; intros s s' ev Hi Hf H; [lia|].
+  intros jit c Hc Hj. induction fuel as [|f IH]; intros s s' ev Hi Hp Hf H; [lia|].
   cbn [run_loop] in H. destruct (quiescent s) eqn:Q.
   { inversion H; subst. split; [intros []|]. split; [reflexivity|]. split; assumption. }
   destruct (get_next_task s) as [[t s1] z] eqn:G. destruct t as [e|].
-  - destruct (process_task jit c s1 e) as [[s2 ev1] r1] eqn:P.
-    destruct (fire_heap_inv _ _ _ _ _ _ _ _ _ Hi G P) as [rest [Hh [Hd [-> [Hn [Hi2 Hc]]]]]].
+  - destruct (process_task jit c s1 e) as [[s2 ev1] r1] eqn:P. cbv beta iota zeta in H.
+    destruct (fire_heap_inv _ _ _ _ _ _ _ _ _ Hc Hi Hp G P) as [rest [Hh [Hd [Hn [Hi2 [Hp2 [_ Hx]]]]]]].
+    assert (Hev : ev1 = [fire_of s1 e] \/ exists i, ev1 = [fire_of s1 e; EvInst i true]).
+    { destruct Hx as [[_ ->]|[iv [off [_ [_ [_ [-> _]]]]]]]; [left; reflexivity | right; eexists; reflexivity]. }
     assert (Hs : due_count s = S (dcount (now s) rest)).
     { rewrite due_count_eq, Hh. unfold dcount. cbn [filter].
       destruct (e_when e <=? now s) eqn:E; [reflexivity | lia]. }
     assert (H2 : due_count s2 = dcount (now s) rest).
-    { rewrite due_count_eq, Hn. destruct Hc as [->|[iv [off [_ [Hiv [_ Hp]]]]]]; [reflexivity|].
-      rewrite (dcount_perm _ _ _ Hp). unfold dcount. cbn [filter e_when fst].
+    { rewrite due_count_eq, Hn. destruct Hx as [[-> _]|[iv [off [_ [Hiv [_ [_ Hperm]]]]]]]; [reflexivity|].
+      rewrite (dcount_perm _ _ _ Hperm). unfold dcount. cbn [filter e_when fst].
       pose proof (next_slot_after jit iv off (now s) Hiv Hj).
       destruct (next_slot jit iv off (now s) <=? now s) eqn:E; [lia | reflexivity]. }
     destruct r1.
     + destruct (run_loop true jit c f s2) as [s4 ev3] eqn:R. inversion H; subst.
       assert (Hm : (rmeasure s2 < f)%nat).
       { unfold rmeasure in *. rewrite H2. rewrite Hs in Hf. destruct (dq s2), (dq s); lia. }
-      destruct (IH _ _ _ Hi2 Hm R) as [Hnf [Hn4 [Hi4 Hq4]]].
+      destruct (IH _ _ _ Hi2 Hp2 Hm R) as [Hnf [Hn4 [Hi4 Hq4]]].
       split; [|split; [congruence | split; assumption]].
-      intros Hin. destruct Hin as [Hin|[Hin|Hin]]; [discriminate | discriminate | exact (Hnf Hin)].
-    + destruct (do_drain_guarded s2) as [L HD]. rewrite HD in H.
+      intros Hin. destruct Hin as [Hin|Hin]; [discriminate|]. apply in_app_or in Hin.
+      destruct Hin as [Hin|Hin]; [|exact (Hnf Hin)]. apply in_app_or in Hin.
+      destruct Hin as [Hin|[Hin|[]]]; [exact (fire_events_nofuel _ _ _ Hev Hin) | discriminate].
+    + destruct (do_drain true jit c s2) as [[s3 ev2] r2] eqn:D.
+      destruct (do_drain_passive _ _ _ _ _ _ _ Hp2 D) as [q [-> [_ [_ Hg]]]].
+      destruct (Hg eq_refl) as [_ [-> Hnf2]].
       destruct (run_loop true jit c f (set_dq s2 [])) as [s4 ev3] eqn:R. inversion H; subst.
       assert (Hi3 : Inv (set_dq s2 [])) by (apply Inv_set_dq, Hi2).
       assert (Hm : (rmeasure (set_dq s2 []) < f)%nat).
       { unfold rmeasure in *. cbn [dq set_dq]. change (due_count (set_dq s2 [])) with (due_count s2).
         rewrite H2. rewrite Hs in Hf. destruct (dq s); lia. }
-      destruct (IH _ _ _ Hi3 Hm R) as [Hnf [Hn4 [Hi4 Hq4]]].
+      destruct (IH _ _ _ Hi3 (eq_refl : passive_dq (set_dq s2 [])) Hm R) as [Hnf [Hn4 [Hi4 Hq4]]].
       split; [|split; [cbn [now set_dq] in Hn4; congruence | split; assumption]].
       intros Hin. destruct Hin as [Hin|Hin]; [discriminate|]. apply in_app_or in Hin.
-      destruct Hin as [Hin|Hin]; [exact (not_in_calls _ Hin) | exact (Hnf Hin)].
-  - pose proof (get_next_none_due _ _ _ Hi G) as Hz0.
+      destruct Hin as [Hin|Hin]; [|exact (Hnf Hin)]. apply in_app_or in Hin.
+      destruct Hin as [Hin|Hin]; [exact (fire_events_nofuel _ _ _ Hev Hin) | exact (Hnf2 Hin)].
+  - cbv beta iota zeta in H. pose proof (get_next_none_due _ _ _ Hi G) as Hz0.
     apply get_next_none in G. destruct G as [-> ->].
-    destruct (do_drain_guarded s) as [L HD]. rewrite HD in H.
+    destruct (do_drain true jit c s) as [[s3 ev2] r2] eqn:D.
+    destruct (do_drain_passive _ _ _ _ _ _ _ Hp D) as [q [-> [_ [_ Hg]]]].
+    destruct (Hg eq_refl) as [_ [-> Hnf2]].
     destruct (run_loop true jit c f (set_dq s [])) as [s4 ev3] eqn:R. inversion H; subst.
     assert (Hi3 : Inv (set_dq s [])) by (apply Inv_set_dq, Hi).
     assert (Hdq : dq s <> []).
@@ -63,40 +72,24 @@ Proof.
     assert (Hm : (rmeasure (set_dq s []) < f)%nat).
     { unfold rmeasure in *. cbn [dq set_dq]. change (due_count (set_dq s [])) with (due_count s).
       destruct (dq s); [contradiction | lia]. }
-    destruct (IH _ _ _ Hi3 Hm R) as [Hnf [Hn4 [Hi4 Hq4]]].
+    destruct (IH _ _ _ Hi3 (eq_refl : passive_dq (set_dq s [])) Hm R) as [Hnf [Hn4 [Hi4 Hq4]]].
     split; [|split; [exact Hn4 | split; assumption]].
     intros Hin. cbn [app] in Hin. apply in_app_or in Hin.
-    destruct Hin as [Hin|Hin]; [exact (not_in_calls _ Hin) | exact (Hnf Hin)].
-Qed.
-
-Lemma run_conserves : forall guard jit c s s' ev, Inv s -> run guard jit c s = (s', ev) ->
-  forall x, In x (heap s) -> In x (heap s') \/ In x (fired ev).
-Proof.
-  intros guard jit c s s' ev Hi H.
-  refine (proj2 (run_loop_I (Keep (heap s)) guard jit c _ _ _ _ s [] s' ev _ H)).
-  - intros s0 acc e s1 z s2 ev0 r [Hi0 Hk] G P.
-    destruct (fire_heap_inv _ _ _ _ _ _ _ _ _ Hi0 G P) as [rest [Hh [_ [-> [_ [Hi2 Hc]]]]]].
-    split; [exact Hi2|]. intros x Hx. rewrite fired_app, fired_fire.
-    destruct (Hk x Hx) as [Hin|Hin]; [|right; apply in_or_app; left; exact Hin].
-    rewrite Hh in Hin. destruct Hin as [<-|Hin]; [right; apply in_or_app; right; left; reflexivity|].
-    left. destruct Hc as [->|[iv [off [_ [_ [_ Hp]]]]]]; [exact Hin|].
-    apply (Permutation_in _ (Permutation_sym Hp)). right. exact Hin.
-  - intros s0 acc q [Hi0 Hk]. split; [apply Inv_set_dq, Hi0 | exact Hk].
-  - intros s0 acc ev0 [Hi0 Hk] Hn. split; [exact Hi0|]. rewrite fired_app, (fired_noise _ Hn), app_nil_r. exact Hk.
-  - split; [exact Hi|]. intros x Hx. left. exact Hx.
+    destruct Hin as [Hin|Hin]; [exact (Hnf2 Hin) | exact (Hnf Hin)].
 Qed.
 
 (* core.run: ends within its fuel with nothing due and nothing deferred; every entry that was due
-   has fired, whichever callbacks raised *)
-Lemma run_fires_all_due : forall jit c s s' ev, 0 <= jit -> Inv s -> run true jit c s = (s', ev) ->
+   has fired, whichever callbacks raised (callbacks without scheduling actions) *)
+Lemma run_fires_all_due : forall jit c s s' ev, passive_cfg c -> passive_dq s -> 0 <= jit -> Inv s ->
+  run true jit c s = (s', ev) ->
   ~ In (EvErr OutOfFuel) ev /\ dq s' = [] /\ due_count s' = 0%nat /\
   forall x, In x (heap s) -> e_when x <= now s -> In x (fired ev).
 Proof.
-  intros jit c s s' ev Hj Hi H.
-  assert (Hm : (rmeasure s < 2 * due_count s + 2)%nat) by (unfold rmeasure; destruct (dq s); lia).
-  destruct (run_loop_progress jit c Hj _ _ _ _ Hi Hm H) as [Hnf [Hn [Hi' Hq]]].
+  intros jit c s s' ev Hc Hp Hj Hi H.
+  assert (Hm : (rmeasure s < 2 * due_count s + 2 + slack)%nat) by (unfold rmeasure; destruct (dq s); lia).
+  destruct (run_loop_progress jit c Hc Hj _ _ _ _ Hi Hp Hm H) as [Hnf [Hn [Hi' Hq]]].
   destruct (quiescent_spec _ Hi' Hq) as [Hd Hz].
   split; [exact Hnf|]. split; [exact Hd|]. split; [exact Hz|].
-  intros x Hx Hdue. destruct (run_conserves _ _ _ _ _ _ Hi H x Hx) as [Hin|Hin]; [|exact Hin].
+  intros x Hx Hdue. destruct (run_conserves _ _ _ _ _ _ Hc Hp Hi H x Hx) as [Hin|Hin]; [|exact Hin].
   exfalso. rewrite due_count_eq in Hz. pose proof (dcount_in (now s') _ _ Hin ltac:(lia)). lia.
 Qed.
